@@ -21,6 +21,8 @@ var properties = map[string]PropSpec{
 		NotDecided: "wip",
 		Run: func(c *Ctx) {
 			c.ruleInv()
+			c.ruleSlot0()
+			c.ruleCapW()
 			c.ruleCapInv()
 		},
 	},
